@@ -130,7 +130,7 @@ class _MsgpackExtType(enum.IntEnum):
 
 def _msgpack_ext_pack(x):
   """Messagepack encoders for custom types."""
-  if isinstance(x, np.ndarray) and x.dtype.hasobject:
+  if isinstance(x, np.ndarray) and x.dtype == object:
     return msgpack.ExtType(_MsgpackExtType.bytes_ndarray,
                            _bytes_ndarray_to_bytes(x))
   elif isinstance(x, (np.ndarray, jax.Array)):
